@@ -12,8 +12,9 @@ CONFIG = {
     ],
     "modelled": ["crypt.Fcrypt/cFcrypt", "crypt.desSetKey", "crypt.body/dEncrypt", "crypt.PermOp/HPermOp/c2l/l2c",
                  "cmbbs.GenPasswd", "cmbbs.CheckPasswd",
-                 "ptt.LoginQuery / ptt.Login (password decision only) / ptt.CheckPasswd / ptt.ChangePasswd, cmbbs.PasswdUpdatePasswd / PasswdQueryPasswd (as: the store user -> hash, Model/C02Login.lean)"],
+                 "bbs.Login / bbs.CheckPasswd / bbs.ChangePasswd (as: hand the password bytes on unchanged)", "ptt.LoginQuery / ptt.Login (password decision only) / ptt.CheckPasswd / ptt.ChangePasswd, cmbbs.PasswdUpdatePasswd / PasswdQueryPasswd (as: the store user -> hash, Model/C02Login.lean)"],
     "assumptions": [
+        "stored hashes in the login histories are arbitrary 14-byte values; where the stored hash has a byte >= 0x80 in a salt position Fcrypt panics (C02 fcrypt_panics_iff): the panic is recorded and compared with the model, counts as a refusal, and only an acceptance is judged (login:unverifiable-hash-accepted); bbs.Register is not driven by C02 (property C03 does)",
         "login histories: the users driven exist, have valid ids, pairwise distinct ignoring case, and are not 'guest' (whose login skips the password); session bookkeeping of ptt.Login is not modelled (property C03) - only a handful of full logins per run because the session table holds 31; one process, one caller at a time",
         "clause (a) is proved in full against the hand-written textbook Spec.crypt3 (fcrypt_eq_crypt3); that Spec.crypt3 is what libc crypt(3) computes is not a theorem: it is checked on every run by evaluating Spec.crypt3 (driver op `spec`), the implementation and libc on every generated alphabet-salt pair",
         "clause (d) 'rejected for any other effective key' is not a theorem (DES-crypt collisions exist in principle); it is sampled by P-hat (all 56 single-bit key flips of sampled keys) and never presented as proof",
